@@ -3,7 +3,7 @@
    time by the C04b correspondence (listed in the evidence assumptions).  What the code computed
    before commits a37c004 / 27e8567 / d8f414a / fef12f3 is recorded as Examples in CCMProofs.v. *)
 From GmVerif Require Import Base.ListX Base.Bytes Hash.MD Cipher.SM4 Cipher.GF128 Cipher.GF128Proofs Cipher.GCM
-  Cipher.CCM Cipher.AES Cipher.AESProofs Cipher.ZUC Cipher.ZUCProofs Cipher.Aead Cipher.AeadProofs Cipher.GCMProofs Cipher.CCMProofs.
+  Cipher.CCM Cipher.AES Cipher.AESProofs Cipher.ZUC Cipher.ZUCProofs Cipher.Aead Cipher.AeadProofs Cipher.GCMProofs Cipher.CCMProofs Cipher.AeadInstProofs.
 
 (* ---- GF(2^128) ---- *)
 Theorem C04b_gf128_mul_spec :
@@ -36,6 +36,21 @@ Print Assumptions C04b_ghash_as_coded_eq_poly.
 Theorem C04b_gf_from_bytes_limbs_ok : forall p, limbs_ok (gf_from_bytes p).
 Proof. exact gf_from_bytes_ok. Qed.
 Print Assumptions C04b_gf_from_bytes_limbs_ok.
+
+Theorem C04b_gf128_mul_by_2 :
+  forall a : gf, L64 (fst a) -> L64 (snd a) ->
+  poly (gf128_mul_by_2 a) = xtime (poly a) /\ L64 (fst (gf128_mul_by_2 a)) /\ L64 (snd (gf128_mul_by_2 a)).
+Proof. exact gf128_mul_by_2_poly. Qed.
+Print Assumptions C04b_gf128_mul_by_2.
+
+Theorem C04b_gf128_one_is_unit : forall a : N, gf_mul_horner a (poly gf_one) = a.
+Proof. exact gf_mul_horner_one. Qed.
+Print Assumptions C04b_gf128_one_is_unit.
+
+(* ghash() as coded = GHASH_H(A || 0* || C || 0* || [len A]_64 || [len C]_64) of SP 800-38D *)
+Theorem C04b_ghash_eq_sp800_38d : forall h aad c : list N, ghash h aad c = ghash_spec h aad c.
+Proof. exact ghash_eq_spec. Qed.
+Print Assumptions C04b_ghash_eq_sp800_38d.
 
 (* ---- GHASH: incremental = one-shot for every chunking ---- *)
 Theorem C04b_ghash_stream :
@@ -120,6 +135,54 @@ Theorem C04b_zuc_lfsr_work_mode_range :
   forall l, Forall c31 l -> Forall c31 (lfsr_work_mode l).
 Proof. exact lfsr_work_mode_c31. Qed.
 Print Assumptions C04b_zuc_lfsr_work_mode_range.
+
+Theorem C04b_zuc_mac_stream :
+  forall key iv chunks tail nbits,
+  zuc_mac_finish (fold_left zuc_mac_update chunks (zuc_mac_init key iv)) tail nbits =
+  zuc_mac_finish (zuc_mac_init key iv) (concat chunks ++ tail) (8 * length (concat chunks) + nbits).
+Proof. exact zuc_mac_stream. Qed.
+Print Assumptions C04b_zuc_mac_stream.
+
+Theorem C04b_zuc256_mac_stream :
+  forall key iv macbits chunks tail nbits,
+  zuc256_mac_finish (fold_left zuc256_mac_update chunks (zuc256_mac_init key iv macbits)) tail nbits =
+  zuc256_mac_finish (zuc256_mac_init key iv macbits) (concat chunks ++ tail) (8 * length (concat chunks) + nbits).
+Proof. exact zuc256_mac_stream. Qed.
+Print Assumptions C04b_zuc256_mac_stream.
+
+(* ---- the HMAC modes, encrypt side: streaming under every chunking = the whole-message form ---- *)
+Theorem C04b_cbc_hmac_encrypt_stream :
+  forall key iv aad chunks,
+  sm4_cbc_sm3_hmac_encrypt key iv aad chunks = cbc_hmac_spec_encrypt key iv aad (concat chunks).
+Proof. exact sm4_cbc_sm3_hmac_encrypt_stream. Qed.
+Print Assumptions C04b_cbc_hmac_encrypt_stream.
+
+Theorem C04b_ctr_hmac_encrypt_stream :
+  forall key iv aad chunks,
+  sm4_ctr_sm3_hmac_encrypt key iv aad chunks = ctr_hmac_spec_encrypt key iv aad (concat chunks).
+Proof. exact sm4_ctr_sm3_hmac_encrypt_stream. Qed.
+Print Assumptions C04b_ctr_hmac_encrypt_stream.
+
+(* ---- aes_modes.c ---- *)
+Theorem C04b_aes_cbc_padding_dec_enc :
+  forall key, (length key = 16 \/ length key = 24 \/ length key = 32)%nat ->
+  forall iv p, blk_ok iv -> bytes_ok p = true ->
+  cbc_pad_decrypt (aes_decrypt_block key) false iv (cbc_pad_encrypt (aes_encrypt_block16 key) iv p) = Ok p.
+Proof. exact aes_cbc_pad_dec_enc. Qed.
+Print Assumptions C04b_aes_cbc_padding_dec_enc.
+
+Theorem C04b_aes_ctr_involution :
+  forall key, (length key = 16 \/ length key = 24 \/ length key = 32)%nat ->
+  forall ctr d, ctr128_crypt (aes_encrypt_block16 key) ctr (ctr128_crypt (aes_encrypt_block16 key) ctr d) = d.
+Proof. exact aes_ctr_invol. Qed.
+Print Assumptions C04b_aes_ctr_involution.
+
+Theorem C04b_aes_gcm_dec_enc :
+  forall key, (length key = 16 \/ length key = 24 \/ length key = 32)%nat ->
+  forall iv aad taglen p c t,
+  aes_gcm_encrypt key iv aad p taglen = Ok (c, t) -> aes_gcm_decrypt key iv aad c t = Ok p.
+Proof. exact aes_gcm_dec_accepts_enc. Qed.
+Print Assumptions C04b_aes_gcm_dec_enc.
 
 (* ---- AES: decryption inverts encryption for every key of 16/24/32 bytes and every block ---- *)
 Theorem C04b_aes_dec_enc :
